@@ -1,0 +1,121 @@
+//go:build verif
+
+package pdf
+
+import (
+	"bytes"
+	"io"
+	"sort"
+)
+
+// This file is only compiled with the build tag "verif".  It exposes
+// unexported parts of the cross-reference reader and of the scanner to the
+// external verification harness (work package HIS: properties C04 and C20);
+// it adds no behaviour of its own.
+
+// NewVerifScannerAt returns a scanner positioned at absolute offset pos of
+// file, set up like the scanners made by Reader.scannerFrom and
+// FileInfo.doRead (fileReader and filePos set, so that streams can be read).
+func NewVerifScannerAt(file io.ReaderAt, size, pos int64, getInt func(Object) (Integer, error), scalarOnly bool) *VerifScanner {
+	sr := io.NewSectionReader(file, pos, size-pos)
+	s := newScanner(sr, getInt, nil)
+	s.fileReader = file
+	s.filePos = pos
+	s.scalarOnly = scalarOnly
+	return &VerifScanner{s: s}
+}
+
+// VerifStreamExtent returns the position and length of the raw data of a
+// stream read from a file.
+func VerifStreamExtent(x *Stream) (start, length int64) {
+	return x.start, x.length
+}
+
+// VerifXRefEntry is the exported form of xRefEntry.
+type VerifXRefEntry struct {
+	Num        uint32
+	Pos        int64
+	Generation uint16
+	InStream   uint32
+}
+
+func verifEntries(xref map[uint32]*xRefEntry) []VerifXRefEntry {
+	out := make([]VerifXRefEntry, 0, len(xref))
+	for n, e := range xref {
+		if e == nil {
+			continue
+		}
+		out = append(out, VerifXRefEntry{Num: n, Pos: e.Pos, Generation: e.Generation, InStream: e.InStream.Number()})
+	}
+	sort.Slice(out, func(i, j int) bool { return out[i].Num < out[j].Num })
+	return out
+}
+
+func verifPrefill(pre []VerifXRefEntry) map[uint32]*xRefEntry {
+	xref := make(map[uint32]*xRefEntry)
+	for _, e := range pre {
+		ent := &xRefEntry{Pos: e.Pos, Generation: e.Generation}
+		if e.InStream != 0 {
+			ent.InStream = NewReference(e.InStream, 0)
+		}
+		xref[e.Num] = ent
+	}
+	return xref
+}
+
+// VerifReadXRefTable runs readXRefTable on data (which starts at "xref")
+// with a map that already holds the entries pre.
+func VerifReadXRefTable(data []byte, pre []VerifXRefEntry) ([]VerifXRefEntry, Dict, error) {
+	xref := verifPrefill(pre)
+	s := newScanner(bytes.NewReader(data), nil, nil)
+	dict, err := readXRefTable(xref, s)
+	if err != nil {
+		return nil, nil, err
+	}
+	return verifEntries(xref), dict, nil
+}
+
+// VerifDecodeXRefStream runs checkXRefStreamDict and decodeXRefStream on the
+// decoded stream contents.
+func VerifDecodeXRefStream(dict Dict, rawLen int64, decoded []byte, pre []VerifXRefEntry) ([]VerifXRefEntry, error) {
+	w, ss, err := checkXRefStreamDict(dict, rawLen)
+	if err != nil {
+		return nil, err
+	}
+	xref := verifPrefill(pre)
+	err = decodeXRefStream(xref, bytes.NewReader(decoded), w, ss)
+	if err != nil {
+		return nil, err
+	}
+	return verifEntries(xref), nil
+}
+
+// VerifXRef returns the cross-reference map of an open Reader.
+func VerifXRef(r *Reader) []VerifXRefEntry {
+	return verifEntries(r.xref)
+}
+
+// VerifReadXRef runs the first steps of NewReader (findHeaderOffset,
+// ReadHeaderVersion, readXRef) and returns the cross-reference map, the
+// trailer entries readXRef keeps, and the header offset.
+func VerifReadXRef(data io.ReaderAt, size int64) ([]VerifXRefEntry, Dict, int64, error) {
+	r := &Reader{r: data, size: size, unencrypted: make(map[Reference]bool)}
+	headerOffset, err := findHeaderOffset(data, size)
+	if err != nil {
+		return nil, nil, 0, err
+	}
+	r.headerOffset = headerOffset
+	s, err := r.scannerFrom(headerOffset, false)
+	if err != nil {
+		return nil, nil, 0, err
+	}
+	if _, err = s.ReadHeaderVersion(); err != nil {
+		return nil, nil, 0, err
+	}
+	r.xref = make(map[uint32]*xRefEntry)
+	xref, trailer, err := r.readXRef()
+	if err != nil {
+		return nil, nil, 0, Wrap(err, "xref")
+	}
+	return verifEntries(xref), trailer, headerOffset, nil
+}
